@@ -4,7 +4,7 @@ from .engine_k import bootstrap
 
 ID = "C02"
 ENGINE = "K"
-RUNS = {"quick": 3000, "thorough": 60000}
+RUNS = {"quick": 6000, "thorough": 150000}
 BATCH_WALL_CAP = {"quick": 1500, "thorough": 6 * 3600}
 RUN_WALL_CAP = 600
 RECHECK = {"quick": 12, "thorough": 200}
